@@ -200,8 +200,9 @@ class ListTree:
                 pattern_parts.append(self._no_delimiter)
             else:
                 pattern_parts.append(re.escape(part))
-        pattern = '^' + ''.join(pattern_parts) + '$'
-        return re.compile(pattern), re.compile(pattern, re.IGNORECASE)
+        pattern = '^' + ''.join(pattern_parts) + r'\Z'
+        return re.compile(pattern, re.DOTALL), \
+            re.compile(pattern, re.DOTALL | re.IGNORECASE)
 
     def list_matching(self, ref_name: str, filter_: str) \
             -> Iterable[ListEntry]:
